@@ -125,10 +125,19 @@ func (r *Report) Check(cond bool, rule, construct, pos, okDetail, badDetail stri
 
 // Floor is the vacuity guard: a rule that matched fewer instances than were
 // confirmed by hand on the pinned tree fails instead of passing vacuously.
-func (r *Report) Floor(rule, what string, got, min int) {
+// Floor is the vacuity guard of a rule: confirmed is the number of instances
+// counted by hand on the pinned tree. The rule fails when fewer than half of
+// them (at least one) are matched: merging duplicated code into a helper
+// legitimately lowers a count, a matcher that has stopped recognising the
+// code lowers it to (nearly) zero.
+func (r *Report) Floor(rule, what string, got, confirmed int) {
 	c := "floor:" + what
+	min := (confirmed + 1) / 2
+	if min < 1 {
+		min = 1
+	}
 	if got >= min {
-		r.OK(rule, c, "", fmt.Sprintf("%d instances (floor %d)", got, min))
+		r.OK(rule, c, "", fmt.Sprintf("%d instances (%d confirmed by hand on the pinned tree, floor %d)", got, confirmed, min))
 	} else {
 		r.Bad(rule, c, "", fmt.Sprintf("only %d instances matched, floor is %d: the rule would pass vacuously", got, min))
 	}
